@@ -24,6 +24,7 @@ type Config struct {
 	BadNM        bool // selected N-M variants get wrong counts / unknown names
 	StopSetters  int  // max number of stop-tag setters
 	DupDAG       bool
+	EmptyDAG     bool // sometimes all rules are removed at the end and the DAG model is called once more
 	MinRulesNM   bool
 	BigSets      int  // one in BigSets cases uses 24-40 rules (many goroutines in the concurrent stages)
 	BadSplit     bool // un-selected N-M calls get invalid splits too (only the result clause is decided for them)
@@ -518,6 +519,27 @@ func RunCase(k *fw.Case, cfg *Config) {
 			lastSel[c.Method] = c
 		}
 		runCall(i, t, c)
+	}
+	if cfg.EmptyDAG && r.Intn(4) == 0 {
+		// every rule is removed: for the DAG model all names are unknown names now - they are skipped, nothing
+		// runs, nothing fails
+		old := rs.Names()
+		eng.RB.RemoveRules(old)
+		if pool != nil {
+			pool.Pool.RemoveRules(old)
+		}
+		empty := &RuleSet{}
+		for _, t := range []*Target{eng, pool} {
+			if t == nil {
+				continue
+			}
+			c := Call{Method: MDAG, DAG: GenDAG(r, rs), Pool: t.Pool != nil}
+			lg := NewLog()
+			out := t.Invoke(c, lg)
+			k.Eval(1)
+			k.Count("dag_calls_on_an_emptied_rule_set", 1)
+			report(k, cfg, empty, c, out, Check(empty, c, out, false), procs)
+		}
 	}
 	// no late events: the part of each log that belongs to a returned call must not have grown
 	time.Sleep(200 * time.Microsecond)
